@@ -33,7 +33,8 @@ TSlotNode == [s \in {"A", "A2", "B", "B2", "C", "C2", "U"} |->
 TMaxReq == [c \in TClients |-> 1000]
 
 Stimuli == {"send", "answer", "bclose", "cclose", "expire", "wake"}
-Ignored == {"open", "ready", "skip", "end", "noiter", "tick", "rawsend", "sclose", "openfail", "sendfail", "answerauto"}
+Ignored == {"open", "ready", "skip", "end", "noiter", "tick", "rawsend", "sclose", "openfail", "sendfail", "answerauto",
+            "envfault", "tinit", "tobs", "rstep", "race", "raceend", "refreshed", "topo"}
 Line == TraceLog[l]
 
 TInit == Init /\ l = 1 /\ l0 = 1 /\ ievs = <<>> /\ TLCSet(1, 1)
@@ -51,6 +52,7 @@ Reset ==
   /\ cclosed' = [c \in Clients |-> FALSE] /\ copen' = [c \in Clients |-> TRUE]
   /\ closing' = [c \in Clients |-> FALSE] /\ inq' = [c \in Clients |-> <<>>]
   /\ cpaused' = [c \in Clients |-> FALSE] /\ obuf' = [c \in Clients |-> <<>>] /\ npause' = 0
+  /\ ndown' = [n \in Nodes |-> FALSE] /\ ndowns' = 0
   /\ msg' = [m \in 1..MaxMsg |-> FreshMsg] /\ frag' = <<>>
   /\ outfq' = [n \in Nodes |-> <<>>] /\ infq' = [n \in Nodes |-> <<>>]
   /\ sopen' = [n \in Nodes |-> FALSE] /\ sgen' = [n \in Nodes |-> 0]
